@@ -207,6 +207,9 @@ def m_do(rows, funcs, keys):
                 r[k] = v
     return rows
 F_DERIVE = {
+    # functions that read NO column: a constant, and one that only takes `key` (the name of the column being computed)
+    'c=const()': (dict(c=lambda: 1), [], lambda r: dict(r, c=1)),
+    'b=key': (dict(b=lambda key: key), [], lambda r: dict(r, b='b')),
     'c=a': (dict(c=lambda a: a), ['a'], lambda r: dict(r, c=r['a'])),
     'b=a': (dict(b=lambda a: a), ['a'], lambda r: dict(r, b=r['a'])),
     'c=a|b': (dict(c=lambda a, b: b if a is None else a), ['a', 'b'], lambda r: dict(r, c=r['b'] if r['a'] is None else r['a'])),
@@ -252,6 +255,8 @@ def enabled_ops(m, maxrows):
             ops.append(['set', k, ['scalar', 3]])
             ops.append(['set', k, ['one', 1]])
             ops.append(['set', k, ['none']])
+            if n >= 2 and k == 'a':
+                ops.append(['set', k, ['strn']])
             if cols:
                 if n >= 3:
                     ops.append(['set', k, ['short']])
@@ -260,6 +265,8 @@ def enabled_ops(m, maxrows):
                 ops.append(['set', k, ['empty']])
     ops.append(['setattr', 'a' if ('a' in cols or len(cols) < 3) else cols[0], ['fit', 3]])
     ops.append(['setattr', 'b' if ('b' in cols or len(cols) < 3) else cols[0], ['scalar', 2]])
+    if n >= 2:
+        ops.append(['setattr', 'b' if ('b' in cols or len(cols) < 3) else cols[0], ['strn']])
     for k in cols:
         ops.append(['del', k])
     if cols:
@@ -300,6 +307,8 @@ def enabled_ops(m, maxrows):
             if all(c in cols for c in need) and (name.split('=')[0] in cols or len(cols) < 3):
                 ops.append(['derive', name])
         ops.append(['const', 'b' if ('b' in cols or len(cols) < 3) else cols[0], 1])
+        if n >= 2:
+            ops.append(['const_strn', 'b' if ('b' in cols or len(cols) < 3) else cols[0]])
         if 'a' in cols and 'c' not in cols:
             ops.append(['rename', 'a2c'])
         ops.append(['rename', 'rot'])
@@ -363,6 +372,9 @@ def _vlist(spec, n):
         return v, list(v)
     if t == 'empty':
         return [], []
+    if t == 'strn':
+        v = 'xyzw'[:n]                      # a string SCALAR that happens to have as many characters as the table has rows
+        return v, [v]
     raise ValueError(spec)
 
 
@@ -463,6 +475,9 @@ def apply_op(op, t, m):
             return ret(t(**kw), Model(m.cols + ([newc] if newc not in m.cols else []), [f(r) for r in m.rows]))
         if o == 'const':
             return ret(t(**{op[1]: VALS[op[2]]}), m_set(m, op[1], [VALS[op[2]]]))
+        if o == 'const_strn':
+            sv = 'xyzw'[:n]
+            return ret(t(**{op[1]: sv}), m_set(m, op[1], [sv]))
         if o == 'rename':
             if op[1] == 'a2c':
                 mp = lambda c: 'c' if c == 'a' else c
